@@ -26,36 +26,36 @@ Qed.
 
 (* ---------------------------------------------------------------- _get_dst_indices reads the count only through
    the two tests == 23 and == 25 *)
-Definition day_rel (d d' : day) : Prop :=
-  (count_obs d =? 23) = (count_obs d' =? 23) /\ (count_obs d =? 25) = (count_obs d' =? 25) /\
-  hours d = hours d' /\ d_loc d = d_loc d'.
+Definition day_rel (pol : policy) (d d' : day) : Prop :=
+  (day_count pol d =? 23) = (day_count pol d' =? 23) /\ (day_count pol d =? 25) = (day_count pol d' =? 25) /\
+  hours d = hours d' /\ day_loc pol d = day_loc pol d'.
 
-Lemma interp_loop_ext : forall days days', Forall2 day_rel days days' ->
-  forall i last, interp_loop i days last = interp_loop i days' last.
+Lemma interp_loop_ext : forall pol days days', Forall2 (day_rel pol) days days' ->
+  forall i last, interp_loop pol i days last = interp_loop pol i days' last.
 Proof.
-  intros days days' H. induction H as [|d d' l l' [H23 [_ [Hh Hl]]] _ IH]; intros i last; cbn [interp_loop]; [reflexivity|].
-  rewrite H23. destruct (count_obs d' =? 23); [|apply IH].
-  rewrite Hl. destruct (d_loc d'); [reflexivity|].
+  intros pol days days' H. induction H as [|d d' l l' [H23 [_ [Hh Hl]]] _ IH]; intros i last; cbn [interp_loop]; [reflexivity|].
+  rewrite H23. destruct (day_count pol d' =? 23); [|apply IH].
+  rewrite Hl. destruct (day_loc pol d'); [reflexivity|].
   unfold missing_hours. rewrite Hh. destruct (missing_of (hours d')) as [|h [|? ?]]; try reflexivity.
   rewrite IH. reflexivity.
 Qed.
 
-Lemma mean_loop_ext : forall days days', Forall2 day_rel days days' ->
-  forall i last, mean_loop i days last = mean_loop i days' last.
+Lemma mean_loop_ext : forall pol days days', Forall2 (day_rel pol) days days' ->
+  forall i last, mean_loop pol i days last = mean_loop pol i days' last.
 Proof.
-  intros days days' H. induction H as [|d d' l l' [_ [H25 [Hh Hl]]] _ IH]; intros i last; cbn [mean_loop]; [reflexivity|].
-  rewrite H25. destruct (count_obs d' =? 25); [|apply IH].
-  rewrite Hl. destruct (d_loc d'); [reflexivity|].
+  intros pol days days' H. induction H as [|d d' l l' [_ [H25 [Hh Hl]]] _ IH]; intros i last; cbn [mean_loop]; [reflexivity|].
+  rewrite H25. destruct (day_count pol d' =? 25); [|apply IH].
+  rewrite Hl. destruct (day_loc pol d'); [reflexivity|].
   rewrite Hh. destruct (match first_repeat [] (hours d') with Some h => Some h | None => last end); [|reflexivity].
   rewrite IH. reflexivity.
 Qed.
 
-Lemma get_dst_indices_ext : forall days days', Forall2 day_rel days days' ->
-  get_dst_indices days = get_dst_indices days'.
+Lemma get_dst_indices_ext : forall pol days days', Forall2 (day_rel pol) days days' ->
+  get_dst_indices pol days = get_dst_indices pol days'.
 Proof.
-  intros days days' H. unfold get_dst_indices. rewrite (interp_loop_ext _ _ H).
-  destruct (interp_loop 0 days' None) as [[interp last]|e]; cbn [bind]; [|reflexivity].
-  rewrite (mean_loop_ext _ _ H). reflexivity.
+  intros pol days days' H. unfold get_dst_indices. rewrite (interp_loop_ext _ _ _ H).
+  destruct (interp_loop pol 0 days' None) as [[interp last]|e]; cbn [bind]; [|reflexivity].
+  rewrite (mean_loop_ext _ _ _ H). reflexivity.
 Qed.
 
 Section FlowFacts.
@@ -125,32 +125,26 @@ Section FlowFacts.
   Proof. intros ct fr fr' H. rewrite !day_cat_s. unfold same_weather_calendar in H. rewrite H. reflexivity. Qed.
 
   (* ---- DST stage ---- *)
-  Lemma hours_dst_day : forall pol (d : hday), hours (dst_day pol d) = map s_hour (fst (strip_day d)).
+  Lemma hours_dst_day : forall d : hday, hours (dst_day d) = map s_hour (fst (strip_day d)).
   Proof.
     intros. unfold hours, dst_day. cbn [d_rows strip_day fst]. rewrite !map_map. apply map_ext. intros r. reflexivity.
   Qed.
 
   Lemma dst_days_rel : forall pol (fr fr' : frame), same_weather_calendar fr fr' ->
     map (dst_trigger pol) fr = map (dst_trigger pol) fr' ->
-    Forall2 day_rel (map (dst_day pol) fr) (map (dst_day pol) fr').
+    Forall2 (day_rel pol) (map dst_day fr) (map dst_day fr').
   Proof.
     intros pol. induction fr as [|d fr IH]; intros [|d' fr'] H T; cbn in H, T; try discriminate; cbn [map]; [constructor|].
     inversion H as [[Hd Hl Hrest]]. inversion T as [[T1 T2 Trest]].
     constructor; [|apply IH; assumption].
     unfold day_rel. split; [exact T1|]. split; [exact T2|]. split.
     - rewrite !hours_dst_day. unfold strip_day. cbn [fst]. rewrite Hd. reflexivity.
-    - cbn [dst_day d_loc]. exact Hl.
+    - unfold day_loc. cbn [dst_day d_loc]. rewrite Hl. reflexivity.
   Qed.
 
   Lemma dst_stage_ext : forall pol (fr fr' : frame), same_weather_calendar fr fr' ->
     map (dst_trigger pol) fr = map (dst_trigger pol) fr' -> dst_stage pol fr = dst_stage pol fr'.
   Proof. intros pol fr fr' H T. unfold dst_stage. apply get_dst_indices_ext. apply dst_days_rel; assumption. Qed.
-
-  Lemma count_rows : forall d : hday, count_obs (dst_day CountRows d) = length (h_rows d).
-  Proof.
-    intros d. unfold count_obs, dst_day. cbn [d_rows]. rewrite filter_true_all, map_length; [reflexivity|].
-    intros x Hx. apply in_map_iff in Hx. destruct Hx as [r [<- _]]. reflexivity.
-  Qed.
 
   Lemma rows_length_ni : forall fr fr' : frame, same_weather_calendar fr fr' ->
     map (fun d : hday => length (h_rows d)) fr = map (fun d : hday => length (h_rows d)) fr'.
@@ -160,29 +154,37 @@ Section FlowFacts.
     rewrite <- (map_length strip (h_rows d)), Hd, map_length. reflexivity.
   Qed.
 
-  Lemma trigger_rows_ni : forall fr fr' : frame, same_weather_calendar fr fr' ->
-    map (dst_trigger CountRows) fr = map (dst_trigger CountRows) fr'.
+  Lemma rows_trigger_ni : forall fr fr' : frame, same_weather_calendar fr fr' ->
+    map rows_trigger fr = map rows_trigger fr'.
   Proof.
     intros fr fr' H. pose proof (rows_length_ni _ _ H) as L.
-    assert (E : forall l : frame, map (dst_trigger CountRows) l =
+    assert (E : forall l : frame, map rows_trigger l =
                   map (fun n => (n =? 23, n =? 25)) (map (fun d : hday => length (h_rows d)) l)).
-    { intros l. rewrite map_map. apply map_ext. intros d. unfold dst_trigger. rewrite count_rows. reflexivity. }
+    { intros l. rewrite map_map. apply map_ext. intros d. reflexivity. }
     rewrite !E, L. reflexivity.
   Qed.
 
+  (* rows counted: the tests see the number of rows of the date *)
+  Lemma trigger_count_rows : forall pol (fr : frame), count_rows pol = true ->
+    map (dst_trigger pol) fr = map rows_trigger fr.
+  Proof.
+    intros pol fr Hp. apply map_ext. intros d. unfold dst_trigger, rows_trigger, day_count. rewrite Hp.
+    unfold dst_day. cbn [d_rows]. rewrite map_length. reflexivity.
+  Qed.
+
   Lemma count_observed_full : forall d : hday, forallb (fun r : hrow => is_some (r_obs r)) (h_rows d) = true ->
-    count_obs (dst_day CountObserved d) = length (h_rows d).
+    count_obs (dst_day d) = length (h_rows d).
   Proof.
     intros d H. unfold count_obs, dst_day. cbn [d_rows]. rewrite filter_true_all, map_length; [reflexivity|].
-    intros x Hx. apply in_map_iff in Hx. destruct Hx as [r [<- Hr]]. cbn [stamp hs_obs obs_flag].
+    intros x Hx. apply in_map_iff in Hx. destruct Hx as [r [<- Hr]]. cbn [stamp hs_obs].
     rewrite forallb_forall in H. apply H. exact Hr.
   Qed.
 
   Lemma count_observed_blank : forall d : hday, existsb (fun r : hrow => is_some (r_obs r)) (h_rows d) = false ->
-    count_obs (dst_day CountObserved d) = 0.
+    count_obs (dst_day d) = 0.
   Proof.
     intros d H. unfold count_obs, dst_day. cbn [d_rows]. rewrite filter_false_none; [reflexivity|].
-    intros x Hx. apply in_map_iff in Hx. destruct Hx as [r [<- Hr]]. cbn [stamp hs_obs obs_flag].
+    intros x Hx. apply in_map_iff in Hx. destruct Hx as [r [<- Hr]]. cbn [stamp hs_obs].
     destruct (is_some (r_obs r)) eqn:E; [|reflexivity].
     assert (existsb (fun r : hrow => is_some (r_obs r)) (h_rows d) = true) by (apply existsb_exists; exists r; auto).
     congruence.
@@ -196,22 +198,25 @@ Section FlowFacts.
     existsb p (concat l) = existsb (existsb p) l.
   Proof. intros A p. induction l as [|x l IH]; cbn; [reflexivity|]. rewrite existsb_app, IH. reflexivity. Qed.
 
-  Lemma trigger_full : forall fr : frame, fully_observed fr = true ->
-    map (dst_trigger CountObserved) fr = map (dst_trigger CountRows) fr.
+  (* a usage column without a gap: either way of counting sees the number of rows *)
+  Lemma trigger_full : forall pol (fr : frame), fully_observed fr = true ->
+    map (dst_trigger pol) fr = map rows_trigger fr.
   Proof.
-    intros fr H. unfold fully_observed, all_rows in H. rewrite forallb_concat, forallb_forall in H.
-    apply map_ext_in. intros d Hd. unfold dst_trigger. rewrite count_rows, count_observed_full; [reflexivity|].
-    apply H. apply in_map. exact Hd.
+    intros pol fr H. unfold fully_observed, all_rows in H. rewrite forallb_concat, forallb_forall in H.
+    apply map_ext_in. intros d Hd. unfold dst_trigger, rows_trigger, day_count.
+    destruct (count_rows pol).
+    - unfold dst_day. cbn [d_rows]. rewrite map_length. reflexivity.
+    - rewrite count_observed_full; [reflexivity|]. apply H. apply in_map. exact Hd.
   Qed.
 
   Definition no_short_long (fr : frame) : bool :=
     forallb (fun d : hday => negb (length (h_rows d) =? 23) && negb (length (h_rows d) =? 25)) fr.
 
-  Lemma trigger_blank : forall fr : frame, blank fr = true ->
-    map (dst_trigger CountObserved) fr = map (fun _ => (false, false)) fr.
+  Lemma trigger_blank : forall pol (fr : frame), count_rows pol = false -> blank fr = true ->
+    map (dst_trigger pol) fr = map (fun _ => (false, false)) fr.
   Proof.
-    intros fr H. unfold blank, obs_usable, all_rows in H. rewrite negb_true_iff, existsb_concat in H.
-    apply map_ext_in. intros d Hd. unfold dst_trigger. rewrite count_observed_blank; [reflexivity|].
+    intros pol fr Hp H. unfold blank, obs_usable, all_rows in H. rewrite negb_true_iff, existsb_concat in H.
+    apply map_ext_in. intros d Hd. unfold dst_trigger, day_count. rewrite Hp, count_observed_blank; [reflexivity|].
     destruct (existsb (fun r : hrow => is_some (r_obs r)) (h_rows d)) eqn:E; [|reflexivity].
     assert (existsb (existsb (fun r : hrow => is_some (r_obs r))) (map h_rows fr) = true).
     { apply existsb_exists. exists (h_rows d). split; [apply in_map; exact Hd | exact E]. }
@@ -219,23 +224,12 @@ Section FlowFacts.
   Qed.
 
   Lemma trigger_rows_regular : forall fr : frame, no_short_long fr = true ->
-    map (dst_trigger CountRows) fr = map (fun _ => (false, false)) fr.
+    map rows_trigger fr = map (fun _ => (false, false)) fr.
   Proof.
     intros fr H. unfold no_short_long in H. rewrite forallb_forall in H.
-    apply map_ext_in. intros d Hd. unfold dst_trigger. rewrite count_rows.
+    apply map_ext_in. intros d Hd. unfold rows_trigger.
     specialize (H d Hd). apply andb_true_iff in H. destruct H as [H1 H2].
     rewrite negb_true_iff in H1, H2. rewrite H1, H2. reflexivity.
-  Qed.
-
-  Lemma no_short_long_ni : forall fr fr' : frame, same_weather_calendar fr fr' ->
-    no_short_long fr = no_short_long fr'.
-  Proof.
-    intros fr fr' H. pose proof (rows_length_ni _ _ H) as L. unfold no_short_long.
-    assert (E : forall l : frame,
-      forallb (fun d : hday => negb (length (h_rows d) =? 23) && negb (length (h_rows d) =? 25)) l =
-      forallb (fun n => negb (n =? 23) && negb (n =? 25)) (map (fun d : hday => length (h_rows d)) l)).
-    { induction l as [|d l IH]; cbn; [reflexivity|]. rewrite IH. reflexivity. }
-    rewrite !E, L. reflexivity.
   Qed.
 
   Lemma const_map_ni : forall (fr fr' : frame) (c : bool * bool), length fr = length fr' ->
@@ -298,40 +292,77 @@ Section FlowFacts.
   Qed.
 
   (* repaired counting: no guard beyond the statement's *)
-  Lemma hourly_flow_ni_count_rows : forall t (fr fr' : frame), same_weather_calendar fr fr' -> covers t fr = true ->
-    hourly_flow K CountRows t fr = hourly_flow K CountRows t fr'.
-  Proof. intros t fr fr' H Hc. apply hourly_flow_ni; [exact H | exact Hc | apply trigger_rows_ni; exact H]. Qed.
-
-  (* the code as it is, both usage columns without a gap (what HourlyReportingData delivers whenever the caller's
-     column has at least one value: scaled, shuffled, partly NaN — the data class interpolates the gaps) *)
-  Lemma hourly_flow_ni_fully_observed : forall t (fr fr' : frame), same_weather_calendar fr fr' -> covers t fr = true ->
-    fully_observed fr = true -> fully_observed fr' = true ->
-    hourly_flow K CountObserved t fr = hourly_flow K CountObserved t fr'.
+  Lemma hourly_flow_ni_count_rows : forall pol t (fr fr' : frame), count_rows pol = true ->
+    same_weather_calendar fr fr' -> covers t fr = true ->
+    hourly_flow K pol t fr = hourly_flow K pol t fr'.
   Proof.
-    intros t fr fr' H Hc F1 F2. apply hourly_flow_ni; [exact H | exact Hc|].
-    rewrite (trigger_full _ F1), (trigger_full _ F2). apply trigger_rows_ni. exact H.
+    intros pol t fr fr' Hp H Hc. apply hourly_flow_ni; [exact H | exact Hc|].
+    rewrite !(trigger_count_rows pol _ Hp). apply rows_trigger_ni. exact H.
+  Qed.
+
+  (* both usage columns without a gap (what HourlyReportingData delivers whenever the caller's column has at least
+     one value: scaled, shuffled, partly NaN — the data class interpolates the gaps): either way of counting *)
+  Lemma hourly_flow_ni_fully_observed : forall pol t (fr fr' : frame), same_weather_calendar fr fr' -> covers t fr = true ->
+    fully_observed fr = true -> fully_observed fr' = true ->
+    hourly_flow K pol t fr = hourly_flow K pol t fr'.
+  Proof.
+    intros pol t fr fr' H Hc F1 F2. apply hourly_flow_ni; [exact H | exact Hc|].
+    rewrite (trigger_full pol _ F1), (trigger_full pol _ F2). apply rows_trigger_ni. exact H.
   Qed.
 
   (* the code as it is, usage blanked or omitted: unchanged as long as no date of the frame has 23 or 25 rows *)
-  Lemma hourly_flow_ni_blank_regular : forall t (fr fr' : frame), same_weather_calendar fr fr' -> covers t fr = true ->
+  Lemma hourly_flow_ni_blank_regular : forall pol t (fr fr' : frame), count_rows pol = false ->
+    same_weather_calendar fr fr' -> covers t fr = true ->
     fully_observed fr = true -> blank fr' = true -> no_short_long fr = true ->
-    hourly_flow K CountObserved t fr = hourly_flow K CountObserved t fr'.
+    hourly_flow K pol t fr = hourly_flow K pol t fr'.
   Proof.
-    intros t fr fr' H Hc F1 B N. apply hourly_flow_ni; [exact H | exact Hc|].
-    rewrite (trigger_full _ F1), (trigger_rows_regular _ N), (trigger_blank _ B).
+    intros pol t fr fr' Hp H Hc F1 B N. apply hourly_flow_ni; [exact H | exact Hc|].
+    rewrite (trigger_full pol _ F1), (trigger_rows_regular _ N), (trigger_blank pol _ Hp B).
     apply const_map_ni. apply same_wc_length. exact H.
   Qed.
 
-  (* with the counting repaired the as-coded behaviour on fully observed frames is what every frame gets *)
-  Lemma count_rows_agrees_when_full : forall t (fr : frame), fully_observed fr = true ->
-    hourly_flow K CountObserved t fr = hourly_flow K CountRows t fr.
+  (* usage blanked vs usage omitted (or any two frames without a usable usage value): no guard at all — not even
+     the coverage of the stored table *)
+  Lemma hourly_flow_ni_both_blank : forall pol t (fr fr' : frame), same_weather_calendar fr fr' ->
+    blank fr = true -> blank fr' = true -> hourly_flow K pol t fr = hourly_flow K pol t fr'.
   Proof.
-    intros t fr F1. unfold hourly_flow.
-    assert (E : dst_stage CountObserved fr = dst_stage CountRows fr).
-    { unfold dst_stage. apply get_dst_indices_ext.
-      pose proof (trigger_full _ F1) as T. clear F1. induction fr as [|d fr IH]; cbn [map]; [constructor|].
-      cbn [map] in T. inversion T as [[T1 T2 Trest]]. constructor; [|apply IH; exact Trest].
-      unfold day_rel. repeat split; try assumption. rewrite !hours_dst_day. reflexivity. }
+    intros pol t fr fr' H B B'. apply hourly_flow_from_stages; [exact H| |apply cluster_stage_blank_ni; assumption].
+    apply dst_stage_ext; [exact H|]. destruct (count_rows pol) eqn:Hp.
+    - rewrite !(trigger_count_rows pol _ Hp). apply rows_trigger_ni. exact H.
+    - rewrite (trigger_blank pol _ Hp B), (trigger_blank pol _ Hp B'). apply const_map_ni. apply same_wc_length. exact H.
+  Qed.
+
+  (* with the counting repaired, frames with a complete usage column are predicted as before *)
+  Lemma count_rows_agrees_when_full : forall pol pol' t (fr : frame), loc_by_mask pol = loc_by_mask pol' ->
+    fully_observed fr = true -> hourly_flow K pol t fr = hourly_flow K pol' t fr.
+  Proof.
+    intros pol pol' t fr Hm F1. unfold hourly_flow.
+    assert (E : dst_stage pol fr = dst_stage pol' fr).
+    { unfold dst_stage, get_dst_indices.
+      pose proof (trigger_full pol _ F1) as T. pose proof (trigger_full pol' _ F1) as T'.
+      assert (X : forall days i last,
+                 map (fun d => (day_count pol d =? 23, day_count pol d =? 25)) days =
+                 map (fun d => (day_count pol' d =? 23, day_count pol' d =? 25)) days ->
+                 interp_loop pol i days last = interp_loop pol' i days last /\
+                 mean_loop pol i days last = mean_loop pol' i days last).
+      { induction days as [|d days IH]; intros i last E; [split; reflexivity|].
+        cbn [map] in E. inversion E as [[E1 E2 Er]]. cbn [interp_loop mean_loop].
+        rewrite E1, E2. unfold day_loc. rewrite Hm.
+        split.
+        - destruct (day_count pol' d =? 23); [|apply IH; exact Er].
+          destruct (if loc_by_mask pol' then None else d_loc d); [reflexivity|].
+          destruct (missing_hours d) as [|h [|? ?]]; try reflexivity.
+          rewrite (proj1 (IH (S i) (Some h) Er)). reflexivity.
+        - destruct (day_count pol' d =? 25); [|apply IH; exact Er].
+          destruct (if loc_by_mask pol' then None else d_loc d); [reflexivity|].
+          destruct (match first_repeat [] (hours d) with Some h => Some h | None => last end) as [h|]; [|reflexivity].
+          rewrite (proj2 (IH (S i) (Some h) Er)). reflexivity. }
+      assert (Em : map (fun d => (day_count pol d =? 23, day_count pol d =? 25)) (map dst_day fr) =
+                   map (fun d => (day_count pol' d =? 23, day_count pol' d =? 25)) (map dst_day fr)).
+      { rewrite !map_map. unfold dst_trigger in T, T'. rewrite T, T'. reflexivity. }
+      rewrite (proj1 (X _ 0 None Em)).
+      destruct (interp_loop pol' 0 (map dst_day fr) None) as [[interp last]|e]; cbn [bind]; [|reflexivity].
+      rewrite (proj2 (X _ 0 last Em)). reflexivity. }
     rewrite E. reflexivity.
   Qed.
 
@@ -396,5 +427,89 @@ Section FlowFacts.
       + apply combo_eqb_eq in E. subst k. inversion Hnd as [|? ? Hnot Hnd']; subst.
         rewrite (find_known_none ct c Hnot). reflexivity.
       + apply IH. inversion Hnd; assumption.
+  Qed.
+  (* ---- predicting the same calendar again with the same object: the stored-back table answers as the fitted one ---- *)
+  Lemma combo_eqb_refl : forall c : combo, combo_eqb c c = true.
+  Proof. intros [a b]. unfold combo_eqb. cbn [fst snd]. rewrite !Z.eqb_refl. reflexivity. Qed.
+
+  Lemma combo_ltb_spec : forall a b : combo,
+    combo_ltb a b = true <-> (fst a < fst b \/ (fst a = fst b /\ snd a < snd b))%Z.
+  Proof.
+    intros [a1 a2] [b1 b2]. unfold combo_ltb. cbn [fst snd].
+    rewrite orb_true_iff, andb_true_iff, !Z.ltb_lt, Z.eqb_eq. reflexivity.
+  Qed.
+
+  Lemma combo_trichotomy : forall a b : combo, combo_eqb a b = false -> combo_ltb a b = false -> combo_ltb b a = true.
+  Proof.
+    intros [a1 a2] [b1 b2] E L. apply combo_ltb_spec. cbn [fst snd].
+    assert (L' : ~ (a1 < b1 \/ (a1 = b1 /\ a2 < b2))%Z).
+    { intros X. apply (proj2 (combo_ltb_spec (a1, a2) (b1, b2))) in X. congruence. }
+    assert (E' : ~ (a1 = b1 /\ a2 = b2)).
+    { intros [X1 X2]. subst. rewrite combo_eqb_refl in E. discriminate. }
+    lia.
+  Qed.
+
+  Lemma insert_combo_In : forall c l x, In x (insert_combo c l) -> x = c \/ In x l.
+  Proof.
+    intros c. induction l as [|y l IH]; intros x H; cbn [insert_combo] in H.
+    - destruct H as [<-|[]]. left. reflexivity.
+    - destruct (combo_eqb c y); [right; exact H|].
+      destruct (combo_ltb c y); [destruct H as [<-|H]; [left; reflexivity | right; exact H]|].
+      destruct H as [<-|H]; [right; left; reflexivity|]. destruct (IH _ H) as [->|H']; [left; reflexivity | right; right; exact H'].
+  Qed.
+
+  Definition all_gt (x : combo) (l : list combo) : Prop := forall y, In y l -> combo_ltb x y = true.
+  Fixpoint csorted (l : list combo) : Prop := match l with [] => True | x :: t => all_gt x t /\ csorted t end.
+
+  Lemma insert_combo_sorted : forall c l, csorted l -> csorted (insert_combo c l).
+  Proof.
+    intros c. induction l as [|y l IH]; intros H; cbn [insert_combo].
+    - split; [intros z []| exact I].
+    - destruct H as [Hy Hl]. destruct (combo_eqb c y) eqn:E; [split; assumption|].
+      destruct (combo_ltb c y) eqn:L.
+      + split; [|split; assumption]. intros z [<-|Hz]; [exact L|].
+        specialize (Hy z Hz). apply combo_ltb_spec in L, Hy. apply combo_ltb_spec. lia.
+      + split; [|apply IH; exact Hl]. intros z Hz. apply insert_combo_In in Hz. destruct Hz as [->|Hz]; [|apply Hy; exact Hz].
+        apply combo_trichotomy; assumption.
+  Qed.
+
+  Lemma csorted_NoDup : forall l, csorted l -> NoDup l.
+  Proof.
+    induction l as [|x l IH]; intros H; [constructor|]. destruct H as [Hx Hl]. constructor; [|apply IH; exact Hl].
+    intros Hin. specialize (Hx x Hin). apply combo_ltb_spec in Hx. lia.
+  Qed.
+
+  Lemma combos_of_NoDup : forall fr : frame, NoDup (combos_of fr).
+  Proof.
+    intros fr. apply csorted_NoDup. unfold combos_of. induction (map combo_of (all_rows fr)) as [|c l IH]; [exact I|].
+    cbn [fold_right]. apply insert_combo_sorted. exact IH.
+  Qed.
+
+  Lemma label_in_reindexed : forall t cs c, In c cs -> label_in (reindexed t cs) c = lookup_combo t c.
+  Proof.
+    intros t cs c. unfold label_in, reindexed. induction cs as [|x cs IH]; intros H; [destruct H|].
+    cbn [map find fst snd]. destruct (combo_eqb x c) eqn:E.
+    - apply combo_eqb_eq in E. subst x. reflexivity.
+    - destruct H as [->|H]; [rewrite combo_eqb_refl in E; discriminate | apply IH; exact H].
+  Qed.
+
+  Lemma reindexed_idem : forall t cs, NoDup cs -> reindexed (known_part (reindexed t cs)) cs = reindexed t cs.
+  Proof.
+    intros t cs Hnd. unfold reindexed at 1 3. apply map_ext_in. intros c Hc. f_equal.
+    rewrite lookup_known_part.
+    - apply label_in_reindexed. exact Hc.
+    - unfold reindexed. rewrite map_map. cbn [fst]. rewrite map_id. exact Hnd.
+  Qed.
+
+  Lemma hourly_flow_table_ext : forall pol t t' (fr : frame), cluster_stage K t fr = cluster_stage K t' fr ->
+    hourly_flow K pol t fr = hourly_flow K pol t' fr.
+  Proof. intros pol t t' fr E. unfold hourly_flow. rewrite E. reflexivity. Qed.
+
+  Lemma reuse_same_calendar : forall pol sp t (fr fr' : frame), covers t fr = true -> same_weather_calendar fr fr' ->
+    hourly_flow_after K pol sp t [fr] fr' = hourly_flow K pol t fr'.
+  Proof.
+    intros pol sp t fr fr' Hc H. unfold hourly_flow_after. cbn [table_after_all]. destruct sp; [|reflexivity].
+    apply hourly_flow_table_ext. unfold table_after. rewrite (cluster_stage_covered t fr Hc).
+    unfold cluster_stage. rewrite <- (combos_of_ni _ _ H), (reindexed_idem t _ (combos_of_NoDup fr)). reflexivity.
   Qed.
 End FlowFacts.
